@@ -224,6 +224,29 @@ def churn_case(n: int, kinds: str = "SU") -> str:
     return f"ctor={CTOR} " + " ".join(labs)
 
 
+def churn_watch_case(n: int, kinds: str = "SU", every: int = 2) -> str:
+    """like `churn_case`, but every `every`-th task starts a detached watcher task from inside its update block; the watcher
+    (its context copy holds the block's derived state) outlives the task and its root block by the whole rest of the case,
+    while later tasks enter their own root blocks – with their own instances – and the same update: objects derived from a
+    dead scope's state stay alive next to freshly allocated scope states."""
+    labs = ["Wc0"] * n
+    b, nxt = 0, n + 1
+    watchers = []
+    for t in range(1, n + 1):
+        k = kinds[t % len(kinds)]
+        ty = 2 + t % 2
+        labs += [f"E{t}.{b + 1}.{k}.{ty}:{100 + t}", f"E{t}.{b + 2}.U.0:1", f"P{t}.{ty}.0", f"P{t}.0.0"]
+        if t % every == 0:
+            labs += [f"Wc{t}", f"P{nxt}.{ty}.0"]
+            watchers.append((nxt, ty))
+            nxt += 1
+        labs += [f"L{t}.{b + 2}", f"L{t}.{b + 1}", f"F{t}"]
+        b += 2
+    for w, ty in watchers:
+        labs += [f"P{w}.{ty}.0", f"P{w}.0.0", f"F{w}"]
+    return f"ctor={CTOR} " + " ".join(labs)
+
+
 def _drop_dead_probes(labels):
     dead = set()
     n = 1
